@@ -126,11 +126,8 @@ def apply_kernel(k, ks):
         fixed = ks.get("delta_fixed", False)
         ks["kx"] = apply_kernel(k.kernel_x, ks["kx"])
         ks["mx"] = apply_mean(k.mean_x, ks["mx"])
-        p = k.get_params()          # carries the kernelx_/meanx_ entries just set
-        p.update({"alpha": ks["alpha"], "mean_lam": ks["mean_lam"], "gamma": ks["gamma"]})
-        if not fixed:
-            p["delta"] = ks["delta"]
-        # set only the exp-decay parameters themselves (setting kernelx_ again could move them by an ulp)
+        # set only the exp-decay parameters themselves (set_params would re-encode kernelx_/meanx_ as well, which
+        # could move those by an ulp)
         k.encoding_alpha.set(k.alpha_internal, ks["alpha"])
         k.encoding_mean_lam.set(k.mean_lam_internal, ks["mean_lam"])
         k.encoding_gamma.set(k.gamma_internal, ks["gamma"])
